@@ -337,6 +337,9 @@ class _LayoutBase(Prop):
             gens.append({"kind": "render", "tree": t, "indent": rnd.choice([0, 1, 3]), "eol": rnd.choice(["\n", "\n", "\r\n", ""]),
                          "addws": True, "salt": rnd.randrange(1000) * 8,
                          "mut": [{"op": rnd.choice(ops), "target": rnd.randrange(50)} for _ in range(rnd.randint(1, 3))]})
+        # the object-history machine (spec/ObjOps.tla): a tree that has a history renders like a fresh one
+        from .. import objhist
+        gens += objhist.gens(rnd, 120 if tier == "quick" else 2500, 5)
         # the caller's own <body> (block or inline) as the sole content of an HTMLDocument
         for j in range(40 if tier == "quick" else 800):
             t = self.rand_tree(rnd, rnd.choice([6, 15]), rnd.choice([3, 5]))
@@ -360,6 +363,9 @@ class _LayoutBase(Prop):
 
     def execute(self, g):
         H = _lib()
+        if g["kind"] == "objhist":
+            from .. import objhist
+            return objhist.execute(g, H)
         t = norm_tree(g["tree"])
         eol = g["eol"]
         import sys
